@@ -62,6 +62,15 @@ func c07Configs(env *engine.Env) []c07Config {
 			return s.doc(append(append([]model.Entry{}, payload[1:]...), c01Fractional()...), root)
 		}})
 	}
+	// changelogs: one whose entries partly lack a date / a packager, and a long one
+	for _, cl := range []string{"changelog-undated.yaml", "changelog-big.yaml"} {
+		cl := cl
+		out = append(out, c07Config{name: cl, doc: func(env *engine.Env, root string) fixture.Doc {
+			d := Setting{Name: "default"}.doc(payload[1:2], root)
+			d["changelog"] = filepath.Join(root, cl)
+			return d
+		}})
+	}
 	// metadata-rich: relations, extras, scripts, changelog
 	out = append(out, c07Config{name: "metadata-rich", doc: func(env *engine.Env, root string) fixture.Doc {
 		m := baseMeta()
@@ -257,6 +266,11 @@ func checkC07(env *engine.Env, ci any) engine.Outcome {
 		// builds 2.1 s apart: clock reads inside third-party code would show
 		cfgs := c07Configs(env)
 		pick := []int{0, 6, len(cfgs) - 2}
+		for i, c := range cfgs {
+			if strings.HasPrefix(c.name, "changelog-") {
+				pick = append(pick, i)
+			}
+		}
 		type k struct {
 			i int
 			f string
